@@ -54,7 +54,17 @@ func runSolverCtx(parent context.Context, name, query string, timeout time.Durat
 	err := cmd.Run()
 	el := time.Since(t0).Seconds()
 	o := out.String()
-	first := strings.TrimSpace(strings.SplitN(o, "\n", 2)[0])
+	// the verdict is the first line that is not a warning (z3 warns about patterns it cannot use and then
+	// answers as usual)
+	first := ""
+	for _, l := range strings.Split(o, "\n") {
+		l = strings.TrimSpace(l)
+		if l == "" || strings.HasPrefix(l, "WARNING") {
+			continue
+		}
+		first = l
+		break
+	}
 	res := solverRes{out: o, solver: name, secs: el}
 	switch {
 	case first == "unsat":
